@@ -13,6 +13,9 @@ returned ∈ ok | panic;   hooks.natural.single scenario blocker unit site write
   hooks.steps.single  scenario blocker reach nItems nFailing nLate stateEqualsAllFailingSkipped detail [stores]
   hooks.sub.single    scenario blocker substep outcome wrote
   hooks.post.single   scenario blocker reach ok vaultStepsWrapped halfAppliedVaults borrowStepsWrapped halfAppliedBorrows itemsV itemsB topUnits [detail]
+  hooks.items.single  scenario blocker nItems k kind j returned natFail observed decomposes [detail]
+      (per-item granularity, c15_apps_test.go: fault in item k — 0 = none —; natFail = items failing by themselves; observed =
+       items visible as processed in the real result, found by comparison with the real one-item runs, `?` = no set of whole items)
 parents: csv of unit numbers (0 = top level) or `-`; commits: string of 0/1 per unit or `-`.
 
 DIFF = the model's prediction differs from the real blocker; MON = the property is false on the real behaviour:
@@ -133,6 +136,30 @@ def handle (st : St) (seq : String) (f : List String) : St × List String :=
                (if hb > 0 then [s!"DIFF\t{seq}\t{scen} {blocker}: model=borrow steps atomic (seen wrapped={borrowW}) impl={hb} half-applied {rest}"] else [])
       (st, d ++ monIf seq (reach = "1" && hv + hb > 0) "unit_atomic")
     | _, _ => (st, [s!"BAD\t{seq}\tpost line"])
+  | "hooks.items.single" :: scen :: blocker :: n :: k :: kind :: j :: returned :: natFail :: observed :: decomposes :: rest =>
+    match parseNat? n, parseNat? k, parseBits natFail with
+    | some n, some k, some nat =>
+      -- model (`per_item_loop_processes_ok_items`): every item under its own wrapper ⇒ exactly the items that do not fail
+      -- are processed, whatever the others do; the blocker over all items = the one-item blockers in sequence
+      -- (`blocker_splits_per_item`)
+      let oks := (List.range n).map fun i => !(nat.getD i false) && i + 1 != k
+      let vis := (runUnits (itemUnits oks 1) []).1
+      let predicted := (List.range n).map fun i => vis.contains (i + 1)
+      let obs := if observed = "?" then none else parseBits observed
+      let agree := obs == some predicted
+      let d := (if agree && returned = "ok" then [] else
+          [s!"DIFF\t{seq}\t{scen} {blocker} fault in item {k} ({kind}, access {j}): processed items model={predicted.map b01} impl={observed} returned={returned} {rest}"]) ++
+        (if decomposes = "1" then [] else
+          [s!"DIFF\t{seq}\t{scen} {blocker}: model=the blocker over all items equals the one-item blockers in sequence impl=differs"])
+      let leaked := match obs with
+        | none => true
+        | some o => (List.range n).any fun i => o.getD i false && !(predicted.getD i false)
+      let dropped := match obs with
+        | none => false
+        | some o => (List.range n).any fun i => !(o.getD i true) && predicted.getD i false
+      (st, d ++ monIf seq (returned != "ok") "no_panic" ++ monIf seq (returned = "ok" && leaked) "unit_atomic" ++
+        monIf seq (returned = "ok" && dropped) "remaining_run")
+    | _, _, _ => (st, [s!"BAD\t{seq}\titems line"])
   | _ => (st, [s!"BAD\t{seq}\tunknown hooks line"])
 
 end Comdex.Drv.Hooks
